@@ -256,6 +256,7 @@ func runC20(r *core.Run) {
 										return nil
 									}
 									r.Op(1)
+									r.State(fmt.Sprintf("%s|%s|%s|%s|%s|%s", es.name, d.Name, shapeStr(shape), la, lb, mode))
 									r.Outcome("arith:" + es.name + ":" + ob.class)
 									// reference model
 									want := make([]interface{}, n)
